@@ -51,8 +51,19 @@ def modules():
 # ------------------------------------------------------------------- helpers
 
 
+# Round-off floor for campaign comparisons.  A response can be (almost) exactly zero -
+# uncertainty factors of 0, cancelling terms - while system and model, which associate the
+# same arithmetic differently, leave residues of the order of eps x the NATURAL magnitude of
+# the recovery (|matrices| x |modal solution|).  A purely relative test against such a
+# residue is a false alarm (met twice in a 900 000-run thorough batch: SRS of a response that
+# is 4e-16 in the model and 0.0 in the system).  While an event is being checked every scale
+# is therefore at least 1e-6 x that natural magnitude, i.e. differences below ~1e-15 x natural
+# magnitude are round-off.  0 outside campaigns.
+_FLOOR = [0.0]
+
+
 def _scale(*arrs):
-    s = 0.0
+    s = _FLOOR[0]
     for a in arrs:
         a = np.asarray(a)
         if a.size:
@@ -1340,6 +1351,11 @@ def op_recover(M, ch, tr, st, rng, mod, ev, h, nan_on, ties_on):
     ev.R[case] = R
     ev.x[case] = x
     ev.done.append((j, case))
+    with np.errstate(all="ignore"):
+        smag = max(float(np.nanmax(np.abs(getattr(pristine, nm)))) for nm in ("a", "v", "d", "pg") if hasattr(pristine, nm) and np.isfinite(getattr(pristine, nm)).any())
+        vmag = max([1.0] + [sum(float(np.max(np.abs(v))) for v in c.V.values()) for c in ev.cats if c.V])
+        umag = max([1.0] + [float(max(abs(u[0] * u[3]), abs(u[1] * u[2]), abs(u[1] * u[3]), abs(u[3]))) for u in ufs])
+    ev.nat = max(getattr(ev, "nat", 0.0), smag * vmag * umag)
     if len({c.uf for c in ev.cats}) < len(ev.cats) and any(c.view for c in ev.cats):
         st.fault("view_drfunc")
     tr.shape("recover", ev.idx, j, ev.domain, len(x), quant, nanned is not None)
@@ -1405,6 +1421,7 @@ def _model_case_mm(ev, cs, case):
 def check_event(M, st, ev, tr):
     """Invariant: the event's tables equal brute force over the cases done so far."""
     st.probe("event_checks")
+    _FLOOR[0] = 1e-6 * getattr(ev, "nat", 0.0)
     res = ev.res
     dname = {"time": "time", "frf": "frf", "psd": "psd"}[ev.domain]
     for cs in ev.cats:
@@ -1681,6 +1698,7 @@ def _labels_for(doappend, levels, which, key, ev, case_label):
 def check_envelope(M, st, ext, keys, contrib, doappend, levels, which, ext_name, stripped=False):
     st.probe("envelope_checks")
     events = [e for k in keys for e in contrib[k]]
+    _FLOOR[0] = 1e-6 * max([0.0] + [getattr(e, "nat", 0.0) for e in events])
     catnames = []
     for e in events:
         for cs in e.cats:
@@ -1773,6 +1791,7 @@ def check_envelope(M, st, ext, keys, contrib, doappend, levels, which, ext_name,
 
 def op_split_merge(M, ch, tr, st, ev):
     cla = M.cla
+    _FLOOR[0] = 1e-6 * getattr(ev, "nat", 0.0)
     _cats_present(ev.res, ev, "event results")
     with _Sut("DR_Results.split"):
         sp = ev.res.split()
@@ -1785,7 +1804,9 @@ def op_split_merge(M, ch, tr, st, ev):
             where = f"split:{cs.name}"
             pc = sp[case][cs.name]
             R, mx, mn = _model_case_mm(ev, cs, case)
-            sc = _scale(R)
+            # the tables hold extremes (PSD domain: peak_factor x rms), the raw response there is
+            # a PSD of a different order of magnitude (1 ulp of an rms was once judged against it)
+            sc = _scale(mx, mn)
             _need(_close(pc.ext, np.column_stack((mx, mn)), TOL, sc), "split_piece_wrong", where + ".ext", case=case)
             _need(_close(pc.mx[:, 0], mx, TOL, sc), "split_piece_wrong", where + ".mx", case=case)
             _need(_close(pc.mn[:, 0], mn, TOL, sc), "split_piece_wrong", where + ".mn", case=case)
@@ -1800,7 +1821,7 @@ def op_split_merge(M, ch, tr, st, ev):
                 if ev.domain in ("time", "psd") and (H is None or H.shape[0] != 1):
                     raise Violation("split_piece_wrong", where + ".hist", case=case, got=None if H is None else str(H.shape))
                 if H is not None:
-                    _need(_close(H[0], ev.R[case][cs.name][cs.hist_idx], TOL, sc), "split_piece_wrong", where + ".hist", case=case)
+                    _need(_close(H[0], ev.R[case][cs.name][cs.hist_idx], TOL, _scale(R)), "split_piece_wrong", where + ".hist", case=case)
             if cs.srspv is not None:
                 Qs = cs.srsQs if isinstance(cs.srsQs, tuple) else (cs.srsQs,)
                 for q in Qs:
@@ -1833,6 +1854,7 @@ def op_split_merge(M, ch, tr, st, ev):
         p.peak_factor = ev.peak_factor
         p.resp_time = ev.resp_time
         p.srsfrq_for = ev.srsfrq_for
+        p.nat = getattr(ev, "nat", 0.0)
         pseudo.append(p)
     keys = [p.name for p in pseudo]
     check_envelope(M, st, new["extreme"], keys, {p.name: [p] for p in pseudo}, 0, 1, "split", ev.name)
@@ -1851,6 +1873,7 @@ def _cats_present(res, ev, where):
 
 
 def op_calc_ext(M, ch, tr, st, ev):
+    _FLOOR[0] = 1e-6 * getattr(ev, "nat", 0.0)
     res = copy.deepcopy(ev.res)
     _cats_present(res, ev, "copy.deepcopy(event results)")
     with _Sut("DR_Results.calc_ext"):
@@ -1881,6 +1904,7 @@ def op_calc_ext(M, ch, tr, st, ev):
 
 def run(ch, tr, st):
     DEEP[0] = False
+    _FLOOR[0] = 0.0
     kind = ch.weighted([6, 2, 2, 2], "scenario")
     with np.errstate(all="ignore"):
         if kind == 0:
